@@ -362,7 +362,7 @@ int main(int argc, char ** argv)
          for (size_t k=0; k<g_lines.size(); k++) fprintf(f, "%s\n", g_lines[k].c_str());
          tracesWritten++; traceLines += (long) g_lines.size()+1;
       }
-      if (!ok) {for (size_t k=0; k<ths.size(); k++) ths[k].detach(); if ((stranded >= 10)||(vs::S.hung)) break;}
+      if (!ok) {for (size_t k=0; k<ths.size(); k++) ths[k].detach(); if ((stranded >= 10)||(vs::S.hung)||(P.destroyer)) break;}     // (a shutdown thread parked for ever inside the recycler flush holds the global lock: no further pool can be created in this process)
       else {for (size_t k=0; k<ths.size(); k++) ths[k].join(); for (size_t k=0; k<CS.size(); k++) delete CS[k];}
       vs::Deactivate();
       if (violated >= 25) break;
